@@ -219,7 +219,7 @@ func c40(c *engine.Ctx) {
 			// size tests: a gate comparing against config.Size, MaxPendingTxsBytes, maxTxBytes on the false branch
 			for _, fld := range []string{"Size", "MaxPendingTxsBytes", "maxTxBytes"} {
 				found := false
-				for _, gt := range g.Gates(t) {
+				for _, gt := range f.GatesWithHelpers(t, 2) {
 					if gt.OnTrue {
 						continue
 					}
@@ -397,6 +397,79 @@ func limitGate(f *engine.Fn, s *engine.Site, lim types.Object) (bool, string) {
 			}
 			return true, "append on the false branch of `" + engine.ExprString(gt.Cond) + "`"
 		}
+	}
+	// nested form: `if lim > -1 { if X > lim { return } }` — the inner test does not dominate the
+	// append (a disabled limit bypasses it), which is exactly `lim > -1 && X > lim` being false.
+	var res *bool
+	var why string
+	engine.InspectBody(f, func(n ast.Node) {
+		outer, ok := n.(*ast.IfStmt)
+		if !ok || outer.Else != nil || outer.Init != nil || len(outer.Body.List) != 1 || res != nil {
+			return
+		}
+		inner, ok := outer.Body.List[0].(*ast.IfStmt)
+		if !ok || inner.Else != nil || len(inner.Body.List) == 0 {
+			return
+		}
+		// the enabling test mentions only the limit
+		for _, cj := range engine.Conjuncts(outer.Cond, token.LAND) {
+			if !engine.Mentions(info, cj, lim) || len(engine.Atoms(cj)) != 1 {
+				return
+			}
+		}
+		b, ok := ast.Unparen(inner.Cond).(*ast.BinaryExpr)
+		if !ok || (b.Op != token.GTR && b.Op != token.GEQ) || engine.ObjOf(info, b.Y) != lim {
+			return
+		}
+		// the inner body leaves the iteration (return / break), and the outer if precedes the append on every path
+		switch last := inner.Body.List[len(inner.Body.List)-1].(type) {
+		case *ast.ReturnStmt:
+		case *ast.BranchStmt:
+			if last.Tok != token.BREAK {
+				return
+			}
+		default:
+			return
+		}
+		os := f.SiteOf(outer.Cond)
+		if os == nil || !g.Dominates(os, s) || !inLoopWith(f, outer, s.Node) {
+			return
+		}
+		var accs []types.Object
+		ast.Inspect(b.X, func(n ast.Node) bool {
+			if id, ok := n.(*ast.Ident); ok {
+				if v, ok := info.ObjectOf(id).(*types.Var); ok && !v.IsField() && v.Parent() != nil && v.Pkg() == f.Pkg.Types {
+					accs = append(accs, v)
+				}
+			}
+			return true
+		})
+		updated := false
+		engine.InspectBody(f, func(n ast.Node) {
+			as, ok := n.(*ast.AssignStmt)
+			if !ok {
+				return
+			}
+			for _, l := range as.Lhs {
+				lo := engine.ObjOf(info, l)
+				for _, acc := range accs {
+					if lo == acc || (lo != nil && feeds(f, lo, acc)) {
+						if st := f.SiteOf(as); st != nil && g.Dominates(st, s) && inLoopWith(f, as, s.Node) {
+							updated = true
+						}
+					}
+				}
+			}
+		})
+		v := updated
+		res = &v
+		why = "append after nested `if " + engine.ExprString(outer.Cond) + " { if " + engine.ExprString(inner.Cond) + " { leave } }`"
+		if !updated {
+			why = "the quantity compared with " + lim.Name() + " is never accumulated in the loop"
+		}
+	})
+	if res != nil {
+		return *res, why
 	}
 	return false, "no `total > " + lim.Name() + "` test with early return gates the append"
 }
